@@ -59,6 +59,7 @@ class Harness:
         self.assume = []
         self.canary = False
         self.ignore = None
+        self.unwindset = None
         self.expect = 'pass'
 
     @property
@@ -257,6 +258,11 @@ def kani_group(scratch, hs, jobs, logdir, tag):
     for h in hs:
         cmd += ['--harness', h.full]
     extra = hs[0].args.split()
+    if hs[0].unwindset:
+        ids = resolve_unwindset(scratch, hs, logdir, tag)
+        extra = extra + ['--cbmc-args', '--unwindset', ','.join(ids)]
+        for h in hs:
+            h.args_resolved = list(extra)
     cbmc_extra = []
     if '--cbmc-args' in extra:
         i = extra.index('--cbmc-args')
@@ -312,6 +318,34 @@ def attributed(c, prop):
     return prop in ids
 
 
+def resolve_unwindset(scratch, hs, logdir, tag):
+    """Per-loop unwinding bounds are written as <mangled-name-suffix>.<loop#>:<n>; CBMC wants the full
+    mangled loop id, which is looked up in the goto binary (codegen-only pass + cbmc --show-loops)."""
+    cmd = ['cargo', 'kani', '-Z', 'stubbing', '--only-codegen', '--exact']
+    for h in hs:
+        cmd += ['--harness', h.full]
+    rc, out, to = run_cmd(cmd, scratch.dir, 900)
+    if rc != 0:
+        raise Inconclusive('codegen-only pass for unwindset failed: ' + out[-400:])
+    import glob
+    want = [w.strip() for w in hs[0].unwindset.split(',') if w.strip()]
+    found = {}
+    for h in hs:
+        files = sorted(glob.glob(os.path.join(scratch.dir, 'target', 'kani', '*', 'debug', 'build', 'uflow', '*', 'out', '*%s.out' % h.name)), key=os.path.getmtime)
+        if not files:
+            raise Inconclusive('no goto binary found for %s' % h.name)
+        rc, out, to = run_cmd(['cbmc', '--show-loops', files[-1]], scratch.dir, 300)
+        loops = re.findall(r'^Loop (\S+):', out, flags=re.M)
+        for w in want:
+            suffix, n = w.rsplit(':', 1)
+            hits = [l for l in loops if l.endswith(suffix)]
+            if not hits:
+                raise Inconclusive('unwindset: no loop matching %s in %s (source changed?)' % (suffix, h.name))
+            for l in hits:
+                found[l] = n
+    return ['%s:%s' % (k, v) for k, v in sorted(found.items())]
+
+
 def classify(h, r, prop=None):
     """-> (verdict, failing_checks, notes).  verdict in pass|fail|inconclusive"""
     checks = r['checks']
@@ -364,7 +398,7 @@ def playback_tests(scratch, h, logdir):
     """Re-run one failing harness with concrete playback and return the generated unit tests."""
     cmd = ['cargo', 'kani', '-Z', 'stubbing', '-Z', 'unstable-options', '--exact', '-Z', 'concrete-playback',
            '--concrete-playback=print', '--harness-timeout', '%ds' % (h.timeout * 2), '--harness', h.full]
-    extra = h.args.split()
+    extra = getattr(h, 'args_resolved', None) or h.args.split()
     cmd += extra
     rc, out, to = run_cmd(cmd, scratch.dir, h.timeout * 2 + 240)
     with open(os.path.join(logdir, 'playback-%s.log' % h.name), 'w') as f:
@@ -504,9 +538,9 @@ def run_check(prop, tier, seed, only=None, write_evidence=True):
         scratch.create(files)
         groups = {}
         for h in sel:
-            groups.setdefault((h.group, h.args), []).append(h)
+            groups.setdefault((h.group, h.args, h.unwindset or ''), []).append(h)
         first = True
-        for gi, ((gname, gargs), hs) in enumerate(sorted(groups.items())):
+        for gi, ((gname, gargs, _uw), hs) in enumerate(sorted(groups.items())):
             tag = '%d-%s' % (gi, re.sub(r'[^A-Za-z0-9]+', '_', gname))
             log('[kani] group %s: %d harness(es) %s' % (gname, len(hs), gargs))
             res = kani_group(scratch, hs, NCPU, logdir, tag)
